@@ -184,19 +184,20 @@ theorem processSlots_nofuel (tbl : ClassTable) {f : Json ν → St → Except Er
       · rename_i e he; intro h; cases h; exact ih st1 he
       · intro h; cases h
 
-theorem fold_nofuel (g : Nat → Option Addr) (s : String) :
+theorem rangeFold_nofuel (g : Nat → Option Addr) (s : String) :
     ∀ (l : List Nat) (acc : Except Err (Option Addr)), acc ≠ .error .fuel →
-      l.foldl (fun (acc : Except Err (Option Addr)) (i : Nat) => match acc with
+      rangeFold g s l acc ≠ .error .fuel := by
+  intro l
+  induction l with
+  | nil => intro acc h; simpa [rangeFold] using h
+  | cons i l ih =>
+    have step : ∀ acc' : Except Err (Option Addr), rangeFold g s (i :: l) acc' = rangeFold g s l (match acc' with
         | .error e => .error e
         | .ok _ => match g i with
           | some x => .ok (some x)
-          | none => .error (.notFound s)) acc ≠ .error .fuel := by
-  intro l
-  induction l with
-  | nil => intro acc h; simpa using h
-  | cons i l ih =>
+          | none => .error (.notFound s)) := fun _ => rfl
     intro acc h
-    simp only [List.foldl_cons]
+    rw [step]
     apply ih
     cases acc with
     | error e => simpa using h
@@ -206,20 +207,47 @@ theorem resolveRange_nofuel (s : String) (reg : List (String × Addr)) :
     resolveRange s reg ≠ .error .fuel := by
   unfold resolveRange
   split
-  · rename_i stem ix _
-    split
-    · split
-      · rename_i a b _ _
-        simp only
-        split
-        · rename_i e he
-          intro h; cases h
-          exact fold_nofuel (fun i => regLookup (stem ++ toString (a + (i : Int))) reg) s _ _ (by simp) he
-        · intro h; cases h
-        · intro h; cases h
-      · intro h; cases h
-    · intro h; cases h
   · intro h; cases h
+  · rename_i stem a b _
+    split
+    · rename_i e he
+      intro h; cases h
+      exact rangeFold_nofuel _ s _ _ (by simp) he
+    · intro h; cases h
+    · intro h; cases h
+
+theorem wrapErr_ne_fuel (c : ClassSpec) (i : String) (e : Err) (he : e ≠ .fuel) : wrapErr c i e ≠ .fuel := by
+  unfold wrapErr
+  cases e <;> simp_all [Err.isParse]
+  split <;> simp
+
+theorem constructPlain_nofuel (cfg : Cfg) (tbl : ClassTable) {f : Json ν → St → Except Err (Addr × St)} {b : Nat}
+    (hf : NoFuel f b) (c : ClassSpec) (id : String) (data : List (String × Json ν)) (hd : depthFields data ≤ b)
+    (st : St) : constructPlain cfg tbl f c id data st ≠ .error .fuel := by
+  unfold constructPlain
+  split
+  · rename_i e he
+    intro h; injection h with h
+    exact wrapErr_ne_fuel c id e (fun hfu => by subst hfu; exact processSlots_nofuel tbl hf _ _ data hd _ st he) h
+  · split <;> (intro h; cases h)
+
+theorem constructSelf_nofuel (cfg : Cfg) (tbl : ClassTable) {f : Json ν → St → Except Err (Addr × St)} {b : Nat}
+    (hf : NoFuel f b) (c : ClassSpec) (k : Nat) (id : String) (data : List (String × Json ν))
+    (hd : depthFields data ≤ b) (st : St) : constructSelf cfg tbl f c k id data st ≠ .error .fuel := by
+  unfold constructSelf
+  split
+  · rename_i e he
+    intro h; injection h with h
+    exact wrapErr_ne_fuel c id e (fun hfu => by subst hfu; exact processSlots_nofuel tbl hf _ _ data hd _ st he) h
+  · split
+    · intro h; cases h
+    · simp only
+      split
+      · rename_i e he
+        intro h; injection h with h
+        exact wrapErr_ne_fuel c id e
+          (fun hfu => by subst hfu; exact processSlots_nofuel tbl hf _ _ data hd _ _ he) h
+      · split <;> (intro h; cases h)
 
 /-- **fuel_enough**: with fuel at least the nesting depth the loader never answers `fuel` -/
 theorem processObject_fuel_enough (cfg : Cfg) (tbl : ClassTable) :
@@ -253,18 +281,10 @@ theorem processObject_fuel_enough (cfg : Cfg) (tbl : ClassTable) :
           · split
             · intro h; cases h
             · rename_i c _
+              unfold constructObject
               split
-              · rename_i e he
-                rename_i idv _ _ _ _ _ _ _
-                have hne := fun i => processSlots_nofuel tbl ih c.name i data hd c.slots st
-                split
-                · split <;> (intro h; cases h)
-                · split
-                  · intro h; cases h
-                  · rename_i hnp
-                    intro h; cases h
-                    exact hne _ he
-              · split <;> (intro h; cases h)
+              · exact constructPlain_nofuel cfg tbl ih c _ data hd st
+              · exact constructSelf_nofuel cfg tbl ih c _ _ data hd st
           · intro h; cases h
       · intro h; cases h
     · intro h; cases h
